@@ -44,6 +44,21 @@ def _big_stack():
         pass
 
 
+def _mem_cap():
+    # the crate's harness binaries get an address-space cap: an input on which the parser loops while allocating
+    # (seeded change C01-h: a statement arm that returns without consuming a token) then ends in an allocation
+    # failure (abort = "the process was killed", which is what C01 reports) within seconds instead of exhausting
+    # the machine for the whole timeout
+    import resource
+    try:
+        resource.setrlimit(resource.RLIMIT_AS, (MEM_CAP, MEM_CAP))
+    except Exception:
+        pass
+
+
+MEM_CAP = 8 << 30
+
+
 def _dump_corpus(cmd, input):
     """VERIF_DUMP_CORPUS=<file>: log every invocation of the hooks-on release harness (arguments + stdin), for the
     mutation survey of tools/mutsurvey.py; never set by the registered checks"""
@@ -59,7 +74,8 @@ def _dump_corpus(cmd, input):
 def sh(cmd, timeout=1200, cwd=None, env=None, input=None):
     _dump_corpus(cmd, input)
     try:
-        pre = _big_stack if (not isinstance(cmd, str) and os.path.basename(cmd[0]) == "gm") else None
+        base = "" if isinstance(cmd, str) else os.path.basename(cmd[0])
+        pre = _big_stack if base == "gm" else (_mem_cap if base == "gv" else None)
         p = subprocess.run(cmd, shell=isinstance(cmd, str), cwd=cwd, env=env or ENV, input=input,
                            capture_output=True, text=True, timeout=timeout, errors="replace", preexec_fn=pre)
         return p.returncode, p.stdout, p.stderr
